@@ -130,21 +130,6 @@ func (r *requestContext) rewriteRequest(targetURL *url.URL) func(req *httputil.P
 		proxyReq.Out.Header.Del("X-Forwarded-Uri")
 		proxyReq.Out.Header.Del("X-Forwarded-Path")
 
-		// all values of a header are handed over, as the envoy ext_authz service does it
-		uh := r.UpstreamHeaders()
-		for k, values := range uh {
-			proxyReq.Out.Header[k] = slices.Clone(values)
-		}
-
-		if host := uh.Get("Host"); len(host) != 0 {
-			proxyReq.Out.Host = host
-			proxyReq.Out.Header.Del("Host")
-		}
-
-		for k, v := range r.UpstreamCookies() {
-			proxyReq.Out.AddCookie(&http.Cookie{Name: k, Value: v})
-		}
-
 		// set headers, which might be relevant for the upstream, if these are present in the original request
 		// and have not been dropped
 		forwardedHost := proxyReq.In.Header.Get("X-Forwarded-Host")
@@ -174,6 +159,23 @@ func (r *requestContext) rewriteRequest(targetURL *url.URL) func(req *httputil.P
 					return fmt.Sprintf("%s, for=%s;host=%s;proto=%s",
 						forwarded, clientIP, proxyReq.In.Host, proto)
 				}))
+		}
+
+		// headers set by the pipeline are applied last: they win over everything set so far, including
+		// the forwarding information above. All values of a header are handed over, as the envoy
+		// ext_authz service does it
+		uh := r.UpstreamHeaders()
+		for k, values := range uh {
+			proxyReq.Out.Header[k] = slices.Clone(values)
+		}
+
+		if host := uh.Get("Host"); len(host) != 0 {
+			proxyReq.Out.Host = host
+			proxyReq.Out.Header.Del("Host")
+		}
+
+		for k, v := range r.UpstreamCookies() {
+			proxyReq.Out.AddCookie(&http.Cookie{Name: k, Value: v})
 		}
 	}
 }
